@@ -34,6 +34,8 @@ CHECKS = {
             "Sequences of make_ref epochs / make_mut / lending / delegation / teardown: every reference keeps designating its own value while borrowed, values are destroyed exactly when the model says (once, not before the owner is verified or dropped, earlier only by make_mut). Sequential part; concurrent pushes belong to the scheduler engine."),
     "C18": ("model_checking", "3.2, 3.3, 6/C18", "Assemble.tla PermInvariant by TLC; metamorphic replay of each behaviour under admissible clause reorderings, over clones, on twin mocks, and for two generic instantiations",
             "One expectation from the model for the whole equivalence class: TLC chooses configuration, admissible permutation and history; the real mock is built in the permuted order and driven (a) directly, (b) with calls routed over clones, (c) in lock-step on two independent mocks."),
+    "C10": ("model_checking", "3.5, 4.4, 6/C10", "Conc.tla interleavings by TLC (DistinctPositions, VerdictIsSequential; split-counter sensitivity) + all schedules of the real library at its yield points, each execution validated against ConcTrace.tla",
+            "The specification is checked for every interleaving of the four linearization points; the implementation is driven through every schedule of small programs by a baton scheduler on the hooked atomics/locks, through random schedules of larger programs, and free-running; acceptance of each execution by the trace specification (TLC infers the unlogged internal steps) is the oracle."),
 }
 
 NOT_YET = {
@@ -48,7 +50,7 @@ def main():
             "thorough_cmd": "bin/check %s --tier thorough" % pid,
             "evidence_file": "evidence/%s.json" % pid,
             "replay_cmd_template": "bin/check %s --replay {path}" % pid,
-            "engine": "tla-lifecycle" if pid in ("C09", "C11", "C13") else "tla-replay",
+            "engine": "tla-lifecycle" if pid in ("C09", "C11", "C13") else ("tla-conc-trace" if pid in ("C10",) else "tla-replay"),
             "level_claimed": {"category": cat, "text": text, "design_ref": "DESIGN.md section " + ref},
             "level_note": MC_NOTE,
             "technique": tech,
@@ -68,11 +70,14 @@ def main():
             "add_only": True,
         },
         "engines": [
+            {"name": "tla-conc-trace", "path": "tla/Conc.tla, tla/MC_Conc.tla, tla/ConcTrace.tla, harness/src/conc.rs, lib/engines.py",
+             "serves_properties": ["C10"],
+             "kind_free_text": "exhaustive interleavings of the specification; controlled scheduler (all schedules) and stress on the real code with trace validation by TLC"},
             {"name": "tla-lifecycle", "path": "tla/Lifecycle.tla, tla/MC_Life.tla, harness/src/life.rs, lib/engines.py",
              "serves_properties": ["C09", "C11", "C13"],
              "kind_free_text": "TLC enumerates lifecycle event sequences (instances, threads, unwinding, value chains); the harness executes them on real instances across two OS threads; process aborts are detected by the driver"},
             {"name": "tla-replay", "path": "tla/Mock.tla, tla/MC_Mock.tla, harness/src/replay.rs, lib/engines.py",
-             "serves_properties": sorted(k for k in CHECKS.keys() if k not in ("C09", "C11", "C13")),
+             "serves_properties": sorted(k for k in CHECKS.keys() if k not in ("C09", "C10", "C11", "C13")),
              "kind_free_text": "TLC enumerates complete behaviours of the specification (configuration x history) and prints them; the Rust harness builds the real mock through the real builder API and compares every step"},
         ],
         "checks": checks,
